@@ -1,13 +1,263 @@
 package verifharness
 
 import (
+	"fmt"
+	"sort"
+	"strings"
+
+	"github.com/Jigsaw-Code/outline-ss-server/ipinfo"
+	outline_prometheus "github.com/Jigsaw-Code/outline-ss-server/prometheus"
 	"github.com/Jigsaw-Code/outline-ss-server/service"
 	"github.com/Jigsaw-Code/outline-ss-server/verifrt/simnet"
+	"github.com/Jigsaw-Code/outline-ss-server/verifrt/simrt"
+	"github.com/prometheus/client_golang/prometheus"
+	dto "github.com/prometheus/client_model/go"
 )
 
-func newPromMetrics(rc *RunCtx) service.ServiceMetrics { return nil }
-
-func (r *udpRun) checkMetrics(assocs []*assoc, outSocks []*simnet.UDPConn, owner func(*simnet.UDPConn) *uClient) {
+// promMetrics is the real Prometheus service-metrics collector.
+type promMetrics interface {
+	service.ServiceMetrics
+	prometheus.Collector
 }
 
-func (r *udpRun) checkStopped() {}
+func newPromMetricsWith(rc *RunCtx, ip2info ipinfo.IPInfoMap) promMetrics {
+	m, err := outline_prometheus.NewServiceMetrics(ip2info)
+	if err != nil {
+		panic(err)
+	}
+	rc.Prom = m
+	return m
+}
+
+func newPromMetrics(rc *RunCtx) service.ServiceMetrics { return newPromMetricsWith(rc, nil) }
+
+// gather collects the real registry's families after the run (outside the bubble).
+func gather(c prometheus.Collector) (map[string]*dto.MetricFamily, error) {
+	reg := prometheus.NewPedanticRegistry()
+	if err := reg.Register(c); err != nil {
+		return nil, err
+	}
+	fams, err := reg.Gather()
+	if err != nil {
+		return nil, err
+	}
+	out := map[string]*dto.MetricFamily{}
+	for _, f := range fams {
+		out[f.GetName()] = f
+	}
+	return out, nil
+}
+
+func labelsOf(m *dto.Metric) map[string]string {
+	o := map[string]string{}
+	for _, l := range m.GetLabel() {
+		o[l.GetName()] = l.GetValue()
+	}
+	return o
+}
+
+// sumCounter sums a counter family over metrics whose labels match want.
+func sumCounter(f *dto.MetricFamily, want map[string]string) float64 {
+	if f == nil {
+		return 0
+	}
+	t := 0.0
+	for _, m := range f.GetMetric() {
+		ls := labelsOf(m)
+		ok := true
+		for k, v := range want {
+			if ls[k] != v {
+				ok = false
+			}
+		}
+		if ok {
+			t += m.GetCounter().GetValue()
+		}
+	}
+	return t
+}
+
+// C16 — UDP metrics match the datagrams actually relayed.
+func init() {
+	Register(&Scenario{Name: "c16", Prop: "C16", MaxSteps: 100000, Run: func(rc *RunCtx) { runUDP(rc, "c16") }, Post: postC16})
+}
+
+func keyIDsFor(keys []*Key, k *Key) map[string]bool {
+	m := map[string]bool{}
+	for _, x := range keys {
+		if sameCrypto(x, k) {
+			m[x.ID] = true
+		}
+	}
+	return m
+}
+
+func (r *udpRun) checkMetrics(assocs []*assoc, outSocks []*simnet.UDPConn, owner func(*simnet.UDPConn) *uClient) {
+	rc := r.rc
+	M := r.srv.M
+	// one AddUDPNatEntry per association, in creation order
+	if len(M.UDP) != len(assocs) {
+		rc.Failf("nat-entry-count", "%d AddUDPNatEntry reports, the reference model has %d associations", len(M.UDP), len(assocs))
+		return
+	}
+	for i, a := range assocs {
+		rec := M.UDP[i]
+		if rec.Client != a.client.addr.String() {
+			rc.Failf("nat-entry-client", "association %d was reported for client %s, expected %s", i, rec.Client, a.client.addr)
+			continue
+		}
+		if !keyIDsFor(r.keys, a.key)[rec.Key] {
+			rc.Failf("nat-entry-key", "association of %s was reported with key %q, it was authenticated with %s", rec.Client, rec.Key, a.key)
+		}
+		// client -> target reports
+		var got []UCall
+		for _, c := range rec.Calls {
+			if c.Kind == "fromclient" {
+				got = append(got, c)
+			}
+		}
+		if len(got) != len(a.fromClient) {
+			rc.Failf("from-client-report-count", "association of %s: %d client datagrams arrived on it, %d AddPacketFromClient reports", rec.Client, len(a.fromClient), len(got))
+		} else {
+			for j, e := range a.fromClient {
+				g := got[j]
+				if !strings.HasPrefix(g.Status, e.Status) {
+					rc.Failf("from-client-status:"+e.Status+"->"+g.Status, "association of %s, datagram #%d: reported status %s, outcome was %s", rec.Client, j, g.Status, e.Status)
+				}
+				if g.A != e.A {
+					rc.Failf("from-client-wire-size", "association of %s, datagram #%d: reported %d bytes from the client, wire size was %d", rec.Client, j, g.A, e.A)
+				}
+				if g.B != e.B {
+					rc.Failf("from-client-payload-size", "association of %s, datagram #%d (status %s): reported %d bytes to the target, %d were sent", rec.Client, j, e.Status, g.B, e.B)
+				}
+			}
+		}
+		// target -> client reports: walk what the association's socket read
+		var sk *simnet.UDPConn
+		for _, s := range outSocks {
+			if owner(s) == a.client {
+				sk = s
+			}
+		}
+		if sk == nil {
+			continue
+		}
+		var gotT []UCall
+		for _, c := range rec.Calls {
+			if c.Kind == "fromtarget" {
+				gotT = append(gotT, c)
+			}
+		}
+		if len(gotT) != len(sk.ReadLog) {
+			rc.Failf("from-target-report-count", "association of %s: its socket read %d target datagrams, %d AddPacketFromTarget reports", rec.Client, len(sk.ReadLog), len(gotT))
+			continue
+		}
+		S, tag := a.key.EK.SaltSize(), a.key.EK.TagSize()
+		bufMax := 64*1024 - (S + 19)
+		// replies actually sent to this client, by payload id, in order
+		sent := map[string][]int{}
+		for _, d := range r.w.Dgrams {
+			if d.FromSock == r.srv.Sock && d.To.String() == a.client.addr.String() {
+				// wire layout: salt | addr | body | tag ; the id sits at the start of the body
+				sent["*"] = append(sent["*"], len(d.Payload))
+			}
+		}
+		okCount := 0
+		for j, rd := range sk.ReadLog {
+			g := gotT[j]
+			wantA := len(rd.Payload)
+			if wantA > bufMax {
+				wantA = bufMax
+			}
+			if g.A != int64(wantA) {
+				rc.Failf("from-target-payload-size", "association of %s, target datagram #%d: reported %d payload bytes, %d were received", rec.Client, j, g.A, wantA)
+			}
+			if g.Status == "OK" {
+				alen := 19
+				if rd.From.IP.To4() != nil {
+					alen = 7
+				}
+				wantB := S + alen + wantA + tag
+				if g.B != int64(wantB) {
+					rc.Failf("from-target-wire-size", "association of %s, target datagram #%d: reported %d bytes to the client, wire size is %d", rec.Client, j, g.B, wantB)
+				}
+				if okCount >= len(sent["*"]) || sent["*"][okCount] != wantB {
+					rc.Failf("from-target-ok-without-send", "association of %s, target datagram #%d: reported OK but the ledger shows no matching %d-byte datagram to the client", rec.Client, j, wantB)
+				}
+				okCount++
+			} else if g.B != 0 {
+				rc.Failf("from-target-failed-bytes", "association of %s, target datagram #%d: status %s but %d bytes reported to the client", rec.Client, j, g.Status, g.B)
+			}
+		}
+		if okCount != len(sent["*"]) {
+			rc.Failf("from-target-unreported-send", "association of %s: %d datagrams were sent to the client, %d were reported OK", rec.Client, len(sent["*"]), okCount)
+		}
+	}
+}
+
+// checkStopped runs after the packet listener was closed and the system idled.
+func (r *udpRun) checkStopped() {
+	for _, rec := range r.srv.M.UDP {
+		if n := rec.count("remove"); n != 1 {
+			r.rc.Failf("remove-report-count", "association of %s: RemoveNatEntry reported %d times by the time the listener was shut down and idle", rec.Client, n)
+		}
+	}
+	r.rc.PostData = r.srv.M
+}
+
+func postC16(rc *RunCtx, res *simrt.Result) {
+	M, _ := rc.PostData.(*RecMetrics)
+	c, _ := rc.Prom.(prometheus.Collector)
+	if M == nil || c == nil {
+		return
+	}
+	fams, err := gather(c)
+	if err != nil {
+		rc.Failf("gather-failed", "Registry.Gather failed: %v", err)
+		return
+	}
+	added := sumCounter(fams["udp_nat_entries_added"], nil)
+	removed := sumCounter(fams["udp_nat_entries_removed"], nil)
+	nrem := 0
+	type kd struct{ key, dir string }
+	want := map[kd]float64{}
+	for _, rec := range M.UDP {
+		nrem += rec.count("remove")
+		for _, cl := range rec.Calls {
+			switch cl.Kind {
+			case "fromclient":
+				want[kd{rec.Key, "c>p"}] += float64(cl.A)
+				want[kd{rec.Key, "p>t"}] += float64(cl.B)
+			case "fromtarget":
+				want[kd{rec.Key, "p<t"}] += float64(cl.A)
+				want[kd{rec.Key, "c<p"}] += float64(cl.B)
+			}
+		}
+	}
+	if int(added) != len(M.UDP) {
+		rc.Failf("gathered-nat-added", "udp_nat_entries_added = %v, %d associations were reported", added, len(M.UDP))
+	}
+	if int(removed) != nrem {
+		rc.Failf("gathered-nat-removed", "udp_nat_entries_removed = %v, %d removals were reported", removed, nrem)
+	}
+	var ks []kd
+	for k := range want {
+		ks = append(ks, k)
+	}
+	sort.Slice(ks, func(i, j int) bool { return ks[i].key+ks[i].dir < ks[j].key+ks[j].dir })
+	for _, k := range ks {
+		got := sumCounter(fams["data_bytes"], map[string]string{"proto": "udp", "dir": k.dir, "access_key": k.key})
+		if got != want[k] {
+			rc.Failf("gathered-data-bytes:"+k.dir, "data_bytes{proto=udp,dir=%s,access_key=%s} = %v, the reported datagrams sum to %v", k.dir, k.key, got, want[k])
+		}
+	}
+	tot := sumCounter(fams["data_bytes"], map[string]string{"proto": "udp"})
+	wt := 0.0
+	for _, v := range want {
+		wt += v
+	}
+	if tot != wt {
+		rc.Failf("gathered-data-bytes-total", "data_bytes{proto=udp} sums to %v, the reported datagrams sum to %v", tot, wt)
+	}
+	_ = fmt.Sprint
+}
